@@ -36,10 +36,13 @@ CONSTANTS MaxLen,            \* bound on the length of a history
           GraphIdempotent,   \* a repeated GenerateGraph leaves the graph as it is
           CacheTransparent,  \* metadata computed over cache hits equals freshly computed metadata
           SerialsMemoised,   \* a symbol keeps the import serial it was given first
-          ScopeFixed         \* a build visits the files controllerGlobs matched - not whatever has been loaded since
+          ScopeFixed,        \* a build visits the files controllerGlobs matched - not whatever has been loaded since
+          TouchInvisible     \* a file saved again with the same bytes (a later modification time) is the same file to the session
 
 PipeCalls == {"GenerateGraph", "Validate", "GenerateIntermediate", "Run"}
-Calls     == PipeCalls \cup {"GenerateSpec"}
+\* "Touch" is the environment's step, not the pipeline's: every source file is saved again, byte for byte, a few seconds later
+\* (an editor re-save, git checkout, touch).  The project is unchanged; the session must not notice.
+Calls     == PipeCalls \cup {"GenerateSpec", "Touch"}
 
 VARIABLES hist,   \* the calls made so far on this pipeline
           st,     \* the session's state, a record (see New)
@@ -54,30 +57,38 @@ New == [built   |-> FALSE,        \* has the graph been built
         warm    |-> FALSE,        \* MetadataCache populated: the next visit is served from it
         serials |-> "unassigned", \* "unassigned" | "S0" | "drifted"
         gi      |-> 0,            \* number of reductions done on a built graph (capped at 2)
-        held    |-> "none"]       \* metadata the caller holds: "none" | "Fempty" | "F0" | "F1"
+        held    |-> "none",       \* metadata the caller holds: "none" | "Fempty" | "F0" | "F1"
+        touched |-> FALSE,        \* the files were re-saved (same bytes) since the last build
+        restamped |-> FALSE]      \* some build has re-visited re-saved files
 
 Cap2(n) == IF n >= 2 THEN 2 ELSE n
 
 \* --- the three stages ---------------------------------------------------------------------------------------
 \* the first build resolves the routes' types and thereby loads the packages they live in; a later build that walked those
 \* packages' files too would meet declarations the first one never saw
-Build(s) == [s EXCEPT !.built = TRUE, !.builds = Cap2(s.builds + 1), !.warm = TRUE, !.loaded = TRUE,
+\* After a Touch the files the next build re-visits carry a later modification time in their version stamps: the graph is then
+\* no longer comparable node by node ("G0t": same project, not larger than the first build's graph) - what the session hands
+\* out (metadata, serials, diagnostics, document) stays the fresh session's.
+Build(s) == [s EXCEPT !.built = TRUE, !.builds = Cap2(s.builds + 1), !.warm = TRUE, !.loaded = TRUE, !.touched = FALSE,
                       !.graph = IF ~s.built THEN "G0"
-                                ELSE IF GraphIdempotent /\ (ScopeFixed \/ ~s.loaded) THEN s.graph ELSE "grown"]
+                                ELSE IF GraphIdempotent /\ (ScopeFixed \/ ~s.loaded)
+                                     THEN (IF s.touched /\ s.graph = "G0" THEN "G0t" ELSE s.graph)
+                                     ELSE "grown",
+                      !.restamped = s.restamped \/ (s.built /\ s.touched)]
 
 \* token of the metadata a reduction of state s hands out, and the serial map after it
 SerialsAfter(s) == IF ~s.built THEN s.serials
                    ELSE IF s.serials = "unassigned" THEN "S0"
-                   ELSE IF SerialsMemoised THEN s.serials ELSE "drifted"
+                   ELSE IF SerialsMemoised /\ (TouchInvisible \/ ~s.restamped) THEN s.serials ELSE "drifted"
 FlatOf(s) == IF ~s.built THEN "Fempty"
-             ELSE IF s.graph = "G0" /\ SerialsAfter(s) = "S0" /\ (CacheTransparent \/ s.builds < 2) THEN "F0"
+             ELSE IF s.graph \in {"G0", "G0t"} /\ SerialsAfter(s) = "S0" /\ (CacheTransparent \/ s.builds < 2) THEN "F0"
              ELSE "F1"
 Reduce(s) == [s EXCEPT !.serials = SerialsAfter(s), !.held = FlatOf(s), !.gi = IF s.built THEN Cap2(s.gi + 1) ELSE s.gi]
 
-DiagOf(s) == IF ~s.built THEN "Dempty" ELSE IF s.graph = "G0" THEN "D0" ELSE "D1"
+DiagOf(s) == IF ~s.built THEN "Dempty" ELSE IF s.graph \in {"G0", "G0t"} THEN "D0" ELSE "D1"
 
 \* --- one call -------------------------------------------------------------------------------------------------
-Enabled(s, c) == c \in PipeCalls \/ (c = "GenerateSpec" /\ s.held # "none")
+Enabled(s, c) == c \in PipeCalls \/ (c = "GenerateSpec" /\ s.held # "none") \/ (c = "Touch" /\ s.built /\ ~s.touched)
 
 Step(s, c) ==
     CASE c = "GenerateGraph"        -> Build(s)
@@ -85,6 +96,7 @@ Step(s, c) ==
       [] c = "GenerateIntermediate" -> Reduce(s)
       [] c = "Run"                  -> Reduce(Build(s))      \* GenerateGraph; Validate; GenerateIntermediate (accepted project)
       [] c = "GenerateSpec"         -> [s EXCEPT !.held = "none"]
+      [] c = "Touch"                -> [s EXCEPT !.touched = TRUE]
 
 \* what the call hands out (flat, diag, spec: "none" when the call returns no such thing) and leaves behind (graph, serials)
 Out(s, c) ==
@@ -116,8 +128,8 @@ C19_FlatStable ==
     /\ \A i \in DOMAIN out : (out[i].call = "GenerateIntermediate" /\ \E j \in 1..(i-1) : hist[j] \in {"GenerateGraph", "Run"}) => out[i].flat = "F0"
 \* the graph is empty until the first build and the first build's graph ever after
 C19_GraphStable ==
-    /\ st.graph = IF st.built THEN "G0" ELSE "empty"
-    /\ \A i \in DOMAIN out : \A j \in DOMAIN out : (i < j /\ out[i].graph # "empty") => out[j].graph = out[i].graph
+    /\ st.graph \in (IF st.built THEN {"G0", "G0t"} ELSE {"empty"})
+    /\ \A i \in DOMAIN out : \A j \in DOMAIN out : (i < j /\ out[i].graph # "empty") => out[j].graph \in {out[i].graph, "G0t"}
 \* serials, once assigned, never change and are the fresh session's
 C19_SerialsStable ==
     /\ st.serials \in {"unassigned", "S0"}
@@ -143,7 +155,8 @@ ExpSpec(t) == CASE t = "none"   -> [returned |-> FALSE]
                 [] t = "P0"     -> [returned |-> TRUE, eqFresh |-> TRUE]
                 [] OTHER        -> [returned |-> TRUE, eqFresh |-> FALSE]
 ExpGraph(t) == CASE t = "empty" -> [empty |-> TRUE]
-                 [] t = "G0"    -> [empty |-> FALSE, eqFresh |-> TRUE, eqFirst |-> TRUE]
+                 [] t = "G0"    -> [empty |-> FALSE, eqFresh |-> TRUE, eqFirst |-> TRUE, notGrown |-> TRUE]
+                 [] t = "G0t"   -> [empty |-> FALSE, notGrown |-> TRUE]
                  [] OTHER       -> [empty |-> FALSE, eqFirst |-> FALSE]
 \* (every route has at least one response, hence at least one serial: projects without routes are not used)
 ExpSerials(t) == CASE t = "none" -> [assigned |-> FALSE]
